@@ -9,6 +9,6 @@ timeout 1800 ./check "$ID" "$@" > /tmp/seedtest.$$.log 2>&1
 rc=$?
 git -C /repo checkout -- .
 git -C /repo clean -fdq -e target >/dev/null 2>&1
-grep -E "VIOLATION|signature|evaluations=|BUILD-FAILED|INCONCLUSIVE" /tmp/seedtest.$$.log | head -8
+grep -a -E "VIOLATION|signature|evaluations=|BUILD-FAILED|INCONCLUSIVE" /tmp/seedtest.$$.log | head -8
 rm -f /tmp/seedtest.$$.log
 echo "exit=$rc"
